@@ -433,6 +433,9 @@ def run(prop, tier):
         ctx.cov["distinct_nontrivial"] = ctx.cov["states"]
         ctx.assumptions += ["golden/enter_values.json (event -> type,value,label) frozen after manual review against the documented descriptions",
                             "events with arguments (tasks, types) are covered by C07/C18", "nesting depth <= 2 (deep plan: 3) plus one depth-512 path per model"]
+        from checks import soak
+        if not ctx.out_of_time(0.9):
+            soak.run_for(ctx, build, scratch, "C08", tier)
         return ctx.finish()
     finally:
         scratch.cleanup()
